@@ -185,7 +185,8 @@ Print Assumptions C03_peer_gone_refuted.
    issued while PDUs are in flight, a peer disconnecting while a request is on its way, stale
    responses, ...), by complete evaluation over a bounded scope: from the initial state and from
    a state with an LE and a classic connection, after EVERY schedule of at most 5 steps over the
-   12-letter alphabet, delivering what is in flight leaves only open-ended procedures.
+   13-letter alphabet (incl. the advertiser stopping / another central winning the race while the
+   ConnectInd is in flight, fix D06d), delivering what is in flight leaves only open-ended procedures.
    (The thorough tier evaluates depth 6 as a per-run obligation.) *)
 Theorem C03_bounded_scope_checked :
   all_ok 5 (p_init [2; 3]) = true /\ all_ok 5 connected_state = true.
@@ -201,6 +202,12 @@ Proof.
   split; [exact (all_ok_spec 5 _ A xs L F) | exact (all_ok_spec 5 _ B xs L F)].
 Qed.
 Print Assumptions C03_pending_has_cause_interleaved.
+
+(* the lost race (D06d): the connection the CUT announced is concluded by a Disconnection Complete *)
+Example C03_lost_race_concluded :
+  groups_obs [2; 3] [[Cmd (LeCreate false 2)]; [Adv 2; PeerAdvOff 2]; [Cmd (ReadFeat 1)]]
+  = ([[0; 8205; 0]; [2; 0; 1; 2]; [3; 1]; [0; 8214; 18]], [], true, true).
+Proof. vm_compute. reflexivity. Qed.
 
 Example C03_connected_state_nonvacuous :
   map (fun k => (k_handle k, k_addr k)) (p_conns connected_state) = [(1, 2); (2, 3)] /\
